@@ -144,8 +144,11 @@ func (x *runner) stallProbe(sc stallCase) {
 	}
 	got := false
 	wait := watchdog
+	probe := hasStateLockProbe(rg.s)
 	if locked {
 		wait = 300 * time.Millisecond // informational only: the verdict is the locked mutex
+	} else if !probe {
+		wait = 2 * time.Second // no probe in this tree: a reader that does not get the state within 2 s counts as blocked
 	}
 	select {
 	case <-done:
@@ -153,6 +156,8 @@ func (x *runner) stallProbe(sc stallCase) {
 	case <-time.After(wait):
 	}
 	switch {
+	case !probe && !got:
+		fail(keyStateLock, fmt.Sprintf("%s's write of the closing element was pending (the peer does not read) and %s did not get the session state within %v (this tree has no VerifStateLocked export: verdict by bounded wait)", sc.Writer, sc.Needer, wait))
 	case locked:
 		fail(keyStateLock, fmt.Sprintf("%s entered its write of the closing element while holding the session's state mutex; with the peer not reading, %s %s while that write was pending", sc.Writer, sc.Needer, map[bool]string{true: "still completed", false: "was blocked"}[got]))
 	case !got:
@@ -269,7 +274,8 @@ func (x *runner) twoSessionDeadlock() {
 	c.release(aServe) // A's serve loop: token reader -> session state -> read
 	c.release(bServe) // B's handler replies; A must read the reply
 	wait := watchdog
-	if locked {
+	probe := hasStateLockProbe(a)
+	if locked || !probe {
 		wait = 2 * time.Second
 	}
 	closed := false
@@ -286,6 +292,8 @@ func (x *runner) twoSessionDeadlock() {
 		}
 	}
 	switch {
+	case !probe && !closed:
+		fail(keyStateLock, fmt.Sprintf("two sessions over a pipe: A.Close wrote </stream:stream> while B was in its handler for an IQ from A; B's handler then replied and A's serve loop was released, but A.Close did not return within %v: A's serve loop does not read B's reply (it waits for the state mutex that Close holds), B cannot finish its reply, nobody reads A's closing tag (no VerifStateLocked export in this tree: verdict by bounded wait)", wait))
 	case locked:
 		fail(keyStateLock, fmt.Sprintf("two sessions over a pipe: A.Close entered its write of </stream:stream> holding A's state mutex while B was in its handler; A's serve loop then needs the state mutex before it can read B's reply, B cannot finish writing the reply, and nobody reads A's closing tag (A.Close returned within %v: %v)", wait, closed))
 	case !closed:
